@@ -615,15 +615,33 @@ def shutdown_instances(env):
 
 def dispatch_pre(ip, frame, env):
     snapshot_client(ip)
+    ctxt = ip.state.ghost['ctxt']
+    ip.state.ghost['pools_before'] = tuple((m.dom, m.val) for m in (ctxt.attrs['connections'], ctxt.attrs['temp_connections']))
     ip.state.ghost['events_at_iteration_start'] = len(ip.state.events)
     ip.state.ghost.pop('recv_result', None)
     ip.state.ghost.pop('recv_returned', None)
+    ip.state.ghost['delivering'] = False
 
 
 def dispatch_post(ip, frame, env):
     """C01/C11 at the server gate: a datagram that the connection dropped changes nothing of an established client
     (when its receive queue was empty no handler runs either)"""
     g = ip.state.ghost
+    # C02 / C10: processing a datagram never REPLACES a pooled client: a connecting client stays registered (or is promoted),
+    # an established one stays registered - whatever is duplicated or replayed (pointwise at the Skolem address a)
+    ctxt = g['ctxt']
+    (cd0, cv0), (td0, tv0) = g['pools_before']
+    conns, temps = ctxt.attrs['connections'], ctxt.attrs['temp_connections']
+    a = env['a']
+    ip.ctx.oblige('%s/loop@dispatch:iteration/a-connecting-client-is-never-replaced-by-a-datagram' % ip.verifying_key, z3.Implies(
+        z3.Select(td0, a), z3.Or(z3.And(z3.Select(temps.dom, a), z3.Select(temps.val, a) == z3.Select(tv0, a)),
+                                 z3.And(z3.Select(conns.dom, a), z3.Select(conns.val, a) == z3.Select(tv0, a)))))
+    ip.ctx.oblige('%s/loop@dispatch:iteration/an-established-client-is-never-removed-by-a-datagram' % ip.verifying_key, z3.Implies(
+        z3.Select(cd0, a), z3.And(z3.Select(conns.dom, a), z3.Select(conns.val, a) == z3.Select(cv0, a))))
+    # "events keep flowing when a handler raises": an exception of one handler call must not end the delivery loop - the
+    # remaining messages of the datagram would never reach the handler
+    ip.ctx.oblige('%s/loop@dispatch:iteration/a-handler-exception-does-not-abort-the-delivery-of-the-remaining-messages' % ip.verifying_key,
+                  z3.BoolVal(not g.get('delivering', False)))
     res = g.get('recv_result')
     client = frame.locals.get('client')
     if res is None or not isinstance(client, SymObj):
@@ -671,6 +689,8 @@ class _:
                     ghost_pre=dispatch_pre, ghost_post=dispatch_post, instances=dispatch_instances,
                     invariant={**pool_inv_clauses()}),
         2: LoopSpec(label='deliver', havoc=['field:ServerClientConnection.status'], skip_when_empty=True,
+                    ghost_pre=lambda ip, frame, env: ip.state.ghost.__setitem__('delivering', True),
+                    ghost_post=lambda ip, frame, env: ip.state.ghost.__setitem__('delivering', False),
                     invariant={'client-is-connected': lambda ghost, client: S.bool(z3.Select(ghost.life, client.ref) == CONN_)}),
         3: LoopSpec(label='sweep', havoc=POOL_HAVOC, havoc_kinds={'sending': sending_kind}, instances=sweep_instances, ghost_init=sweep_init,
                     invariant={**pool_inv_clauses(),
